@@ -742,4 +742,526 @@ theorem sim_block (E : Env) (n : Nat) (bt : Option Ty) (body : List FI) (hS : PS
       exact (Reach.one (E.fetch hat2) rfl).cast' (by simp; omega)
   · cases hc
 
+/-! ### if / else -/
+
+theorem Sim.prepend' {E : Env} {C fs base res tg budget budget' S0 S0' pcEnd out k0}
+    (hr : Reach E.code k0 S0' S0) (hb : budget' ≤ k0 + budget) (h : Sim E C fs base res tg budget S0 pcEnd out) :
+    Sim E C fs base res tg budget' S0' pcEnd out := by
+  rcases out with ⟨ctl, fr', s'⟩
+  cases ctl with
+  | next =>
+    simp only [Sim] at h ⊢
+    obtain ⟨st', vs', h1, h2, h3, h4, k, hk⟩ := h
+    exact ⟨st', vs', h1, h2, h3, h4, k0 + k, hr.trans hk⟩
+  | br l =>
+    simp only [Sim] at h ⊢
+    obtain ⟨F, ts, Y, h1, h2, h3, h4, h5, h6, k, hk⟩ := h
+    exact ⟨F, ts, Y, h1, h2, h3, h4, h5, h6, k0 + k, (hr.trans hk).cast (by omega)⟩
+  | ret =>
+    simp only [Sim] at h ⊢
+    obtain ⟨Y, h1, h2, h3, k, hk⟩ := h
+    exact ⟨Y, h1, h2, h3, k0 + k, (hr.trans hk).cast (by omega)⟩
+  | trap kd => simp only [Sim] at h ⊢; exact TrapsAt.after hr h
+  | exhausted => simp only [Sim] at h ⊢; exact (RunsFor.after hr h).mono hb
+
+theorem Sim.prepend {E : Env} {C fs base res tg budget S0 S0' pcEnd out k0}
+    (hr : Reach E.code k0 S0' S0) (h : Sim E C fs base res tg budget S0 pcEnd out) :
+    Sim E C fs base res tg budget S0' pcEnd out := Sim.prepend' hr (by omega) h
+
+def iteMid (F : Fr) (id : Nat) (rh : Option Nat) : List SymOp :=
+  match rh with
+  | some h' => emitDrop (dropRange F false h') ++ [.br ⟨.cont, id⟩, .label ⟨.els, id⟩]
+  | none => [.label ⟨.els, id⟩]
+
+def iteTail (F : Fr) (id : Nat) (rh : Option Nat) : List SymOp :=
+  match rh with
+  | some h' => emitDrop (dropRange F true h') ++ [.br ⟨.cont, id⟩, .label ⟨.cont, id⟩]
+  | none => [.label ⟨.cont, id⟩]
+
+theorem lowerI_ite (fs : List Fr) (h next : Nat) (bt : Option Ty) (th el : List FI) :
+    (lowerI fs h next (.ite bt th el)).ops =
+      [.brIf ⟨.header, next + 1⟩ ⟨.els, next + 1⟩ none, .label ⟨.header, next + 1⟩] ++
+        (lowerS (⟨.ite, next + 1, h - 1, arity bt⟩ :: fs) (h - 1) (next + 1) th).ops ++
+        iteMid ⟨.ite, next + 1, h - 1, arity bt⟩ (next + 1)
+          (lowerS (⟨.ite, next + 1, h - 1, arity bt⟩ :: fs) (h - 1) (next + 1) th).h ++
+        (lowerS (⟨.ite, next + 1, h - 1, arity bt⟩ :: fs) (h - 1)
+          (lowerS (⟨.ite, next + 1, h - 1, arity bt⟩ :: fs) (h - 1) (next + 1) th).next el).ops ++
+        iteTail ⟨.ite, next + 1, h - 1, arity bt⟩ (next + 1)
+          (lowerS (⟨.ite, next + 1, h - 1, arity bt⟩ :: fs) (h - 1)
+            (lowerS (⟨.ite, next + 1, h - 1, arity bt⟩ :: fs) (h - 1) (next + 1) th).next el).h := by
+  simp only [lowerI, iteMid, iteTail]
+  cases (lowerS (⟨.ite, next + 1, h - 1, arity bt⟩ :: fs) (h - 1) (next + 1) th).h <;>
+    cases (lowerS (⟨.ite, next + 1, h - 1, arity bt⟩ :: fs) (h - 1)
+      (lowerS (⟨.ite, next + 1, h - 1, arity bt⟩ :: fs) (h - 1) (next + 1) th).next el).h <;> rfl
+
+theorem ite_nop (id g : Nat) (bt : Option Ty) (isEnd : Bool) :
+    dropRange ⟨.ite, id, g, arity bt⟩ isEnd (g + arity bt) = none := by
+  unfold dropRange; simp; omega
+
+theorem iteMid_split (id g : Nat) (bt : Option Ty) {rh : Option Nat} {res' : Option (List Ty)}
+    (hrh : rh = res'.map (fun s => g + s.length)) (hend : endOK (btTypes bt) (some res') = true) :
+    (∃ pre : List SymOp, iteMid ⟨.ite, id, g, arity bt⟩ id rh = pre ++ [Op.label ⟨.els, id⟩]) ∧
+    (res' = some (btTypes bt) → iteMid ⟨.ite, id, g, arity bt⟩ id rh = [.br ⟨.cont, id⟩, .label ⟨.els, id⟩]) := by
+  cases res' with
+  | none => subst hrh; exact ⟨⟨[], rfl⟩, fun h => by cases h⟩
+  | some st' =>
+    simp only [endOK, beq_iff_eq] at hend
+    subst hend; subst hrh
+    have : iteMid ⟨.ite, id, g, arity bt⟩ id (Option.map (fun s => g + s.length) (some (btTypes bt))) =
+        [.br ⟨.cont, id⟩, .label ⟨.els, id⟩] := by
+      simp [iteMid, btTypes_length, ite_nop, emitDrop]
+    exact ⟨⟨[.br ⟨.cont, id⟩], by rw [this]; rfl⟩, fun _ => this⟩
+
+theorem iteTail_split (id g : Nat) (bt : Option Ty) {rh : Option Nat} {res' : Option (List Ty)}
+    (hrh : rh = res'.map (fun s => g + s.length)) (hend : endOK (btTypes bt) (some res') = true) :
+    (∃ pre : List SymOp, iteTail ⟨.ite, id, g, arity bt⟩ id rh = pre ++ [Op.label ⟨.cont, id⟩]) ∧
+    (res' = some (btTypes bt) → iteTail ⟨.ite, id, g, arity bt⟩ id rh = [.br ⟨.cont, id⟩, .label ⟨.cont, id⟩]) := by
+  cases res' with
+  | none => subst hrh; exact ⟨⟨[], rfl⟩, fun h => by cases h⟩
+  | some st' =>
+    simp only [endOK, beq_iff_eq] at hend
+    subst hend; subst hrh
+    have : iteTail ⟨.ite, id, g, arity bt⟩ id (Option.map (fun s => g + s.length) (some (btTypes bt))) =
+        [.br ⟨.cont, id⟩, .label ⟨.cont, id⟩] := by
+      simp [iteTail, btTypes_length, ite_nop, emitDrop]
+    exact ⟨⟨[.br ⟨.cont, id⟩], by rw [this]; rfl⟩, fun _ => this⟩
+
+theorem execInstr_ite (m : Module) (n ar : Nat) (th el : List Instr) (c : Nat) (s : List Nat) (locs : Array Nat)
+    (st : Store) :
+    execInstr m (n + 1) (.ite ar th el) ⟨c :: s, locs⟩ st =
+      execInstr m n (.block ar (if c % 2 ^ 32 != 0 then th else el)) ⟨s, locs⟩ st := by
+  rw [execInstr]
+
+theorem sim_ite (E : Env) (n : Nat) (bt : Option Ty) (th el : List FI) (hS : PSeq E n) :
+    PI E (n + 2) (.ite bt th el) := by
+  intro C fs base st vs locs next pc res s0 h hinv hc hvs hlocs hh hat
+  simp only [checkI] at hc
+  rw [lowerI_ite] at hat ⊢
+  split at hc
+  · rename_i c s
+    split at hc
+    · rename_i hcond
+      cases hc
+      obtain ⟨rfl, hend1, hend2⟩ := hcond
+      obtain ⟨vc, vs', rfl, hvc, hvs'⟩ := hvs.cons_left
+      have hg : h - 1 = E.lt.length + (vs' ++ base).length + ([] : List Ty).length := by
+        simp [hh, hvs'.length]; omega
+      have hinv' := hinv.push ⟨.ite, next + 1, h - 1, arity bt⟩ (btTypes bt) vs' (by simp [brArity, btTypes_length])
+        (by simpa using hg)
+      cases hres1 : checkS { C with labels := btTypes bt :: C.labels } [] th with
+      | none => rw [hres1] at hend1; simp [endOK] at hend1
+      | some res1 =>
+      cases hres2 : checkS { C with labels := btTypes bt :: C.labels } [] el with
+      | none => rw [hres2] at hend2; simp [endOK] at hend2
+      | some res2 =>
+      rw [hres1] at hend1; rw [hres2] at hend2
+      have hh1 := lowerS_h (C := { C with labels := btTypes bt :: C.labels })
+        (⟨.ite, next + 1, h - 1, arity bt⟩ :: fs) (h - 1) th [] (next + 1) res1 hres1
+      simp only [List.length_nil, Nat.add_zero] at hh1
+      generalize hr1 : lowerS (⟨.ite, next + 1, h - 1, arity bt⟩ :: fs) (h - 1) (next + 1) th = r1 at hat hh1 ⊢
+      have hh2 := lowerS_h (C := { C with labels := btTypes bt :: C.labels })
+        (⟨.ite, next + 1, h - 1, arity bt⟩ :: fs) (h - 1) el [] r1.next res2 hres2
+      simp only [List.length_nil, Nat.add_zero] at hh2
+      generalize hr2 : lowerS (⟨.ite, next + 1, h - 1, arity bt⟩ :: fs) (h - 1) r1.next el = r2 at hat hh2 ⊢
+      obtain ⟨⟨preM, hpreM⟩, hmidN⟩ := iteMid_split (next + 1) (h - 1) bt hh1 hend1
+      obtain ⟨⟨preT, hpreT⟩, htailN⟩ := iteTail_split (next + 1) (h - 1) bt hh2 hend2
+      generalize hmid : iteMid ⟨.ite, next + 1, h - 1, arity bt⟩ (next + 1) r1.h = mid at hat hpreM hmidN ⊢
+      generalize htail : iteTail ⟨.ite, next + 1, h - 1, arity bt⟩ (next + 1) r2.h = tail at hat hpreT htailN ⊢
+      -- positions
+      have hat0 : At E.sym pc [.brIf ⟨.header, next + 1⟩ ⟨.els, next + 1⟩ none, .label ⟨.header, next + 1⟩] :=
+        hat.left.left.left.left
+      have hatTh : At E.sym (pc + 2) r1.ops := hat.left.left.left.right
+      have hatMid : At E.sym (pc + 2 + r1.ops.length) mid :=
+        hat.left.left.right.cast (by simp; omega) rfl
+      have hatEl : At E.sym (pc + 2 + r1.ops.length + mid.length) r2.ops :=
+        hat.left.right.cast (by simp; omega) rfl
+      have hatTail : At E.sym (pc + 2 + r1.ops.length + mid.length + r2.ops.length) tail :=
+        hat.right.cast (by simp; omega) rfl
+      have hEnd : pc + ([Op.brIf (⟨.header, next + 1⟩ : Label) ⟨.els, next + 1⟩ none, .label ⟨.header, next + 1⟩] ++
+          r1.ops ++ mid ++ r2.ops ++ tail).length = pc + 2 + r1.ops.length + mid.length + r2.ops.length + tail.length := by
+        simp; omega
+      rw [hEnd]
+      -- the continuation label
+      have hatC : At E.sym (pc + 2 + r1.ops.length + mid.length + r2.ops.length + preT.length) [Op.label ⟨.cont, next + 1⟩] := by
+        rw [hpreT] at hatTail; exact hatTail.right
+      have haddrC : resolveT E.sym ⟨.cont, next + 1⟩ = pc + 2 + r1.ops.length + mid.length + r2.ops.length + preT.length :=
+        E.addr hatC (by simp)
+      have htl : tail.length = preT.length + 1 := by rw [hpreT]; simp
+      have hcont : ∀ stk, Reach E.code 1 (resolveT E.sym ⟨.cont, next + 1⟩, stk)
+          (pc + 2 + r1.ops.length + mid.length + r2.ops.length + tail.length, stk) := by
+        intro stk
+        rw [haddrC]
+        exact (Reach.one (E.fetch hatC) rfl).cast' (by omega)
+      have hmod : vc % 2 ^ 32 = vc := Nat.mod_eq_of_lt hvc
+      simp only [FI.toInstr, List.cons_append, execInstr_ite, hmod]
+      rw [execInstr_block]
+      by_cases h0 : vc = 0
+      · -- else branch
+        subst h0
+        simp only [bne_self_eq_false, Bool.false_eq_true, if_false]
+        have hatE : At E.sym (pc + 2 + r1.ops.length + preM.length) [Op.label ⟨.els, next + 1⟩] := by
+          rw [hpreM] at hatMid; exact hatMid.right
+        have haddrE : resolveT E.sym ⟨.els, next + 1⟩ = pc + 2 + r1.ops.length + preM.length := E.addr hatE (by simp)
+        have hml : mid.length = preM.length + 1 := by rw [hpreM]; simp
+        have hstart : Reach E.code 2 (pc, flat (0 :: (vs' ++ base)) locs)
+            (pc + 2 + r1.ops.length + mid.length, flat (vs' ++ base) locs) := by
+          refine Reach.cons (E.fetch hat0) (pc' := pc + 2 + r1.ops.length + preM.length) (stk' := flat (vs' ++ base) locs) ?_ ?_
+          · simp only [Op.mapT, step, flat_cons, haddrE]; simp
+          · exact (Reach.one (E.fetch hatE) rfl).cast' (by omega)
+        have ih := hS _ _ _ [] [] locs el r1.next (pc + 2 + r1.ops.length + mid.length) res2 s0 (h - 1) hinv' hres2
+          trivial hlocs hg (by rw [hr2]; exact hatEl)
+        rw [hr2] at ih
+        simp only [List.nil_append] at ih
+        refine Sim.prepend hstart ?_
+        refine sim_catch E (F := ⟨.ite, next + 1, h - 1, arity bt⟩) (id := next + 1) hvs' (by simp) rfl rfl
+          (by simpa using hg) hend2 ih ?_ (fun _ => hcont) (fun l hl => by simp [targetsI, hl]) (by simp [weightI]; omega)
+        intro hr' stk
+        rw [htailN hr'] at hatTail ⊢
+        refine ⟨2, Reach.cons (E.fetch hatTail) (pc' := pc + 2 + r1.ops.length + mid.length + r2.ops.length + 1) (stk' := stk) ?_ ?_⟩
+        · have : preT.length = 1 := by
+            have := htl; rw [htailN hr'] at this; simpa using this.symm
+          simp only [Op.mapT, step, haddrC, this]
+        · exact (Reach.one (E.fetch hatTail.tail) rfl).cast' (by simp)
+      · -- then branch
+        have hne : (vc != 0) = true := by simpa using h0
+        simp only [hne, if_true]
+        have haddrH : resolveT E.sym ⟨.header, next + 1⟩ = pc + 1 := E.addr hat0.tail (by simp)
+        have hstart : Reach E.code 2 (pc, flat (vc :: (vs' ++ base)) locs) (pc + 2, flat (vs' ++ base) locs) := by
+          refine Reach.cons (E.fetch hat0) (pc' := pc + 1) (stk' := flat (vs' ++ base) locs) ?_ (Reach.one (E.fetch hat0.tail) rfl)
+          have hpos : vc > 0 := Nat.pos_of_ne_zero h0
+          simp only [Op.mapT, step, flat_cons, hpos, if_true, applyDrop, haddrH]
+        have ih := hS _ _ _ [] [] locs th (next + 1) (pc + 2) res1 s0 (h - 1) hinv' hres1
+          trivial hlocs hg (by rw [hr1]; exact hatTh)
+        rw [hr1] at ih
+        simp only [List.nil_append] at ih
+        refine Sim.prepend hstart ?_
+        refine sim_catch E (F := ⟨.ite, next + 1, h - 1, arity bt⟩) (id := next + 1) hvs' (by simp) rfl rfl
+          (by simpa using hg) hend1 ih ?_ (fun _ => hcont) (fun l hl => by simp [targetsI, hl]) (by simp [weightI]; omega)
+        intro hr' stk
+        rw [hmidN hr'] at hatMid
+        have hml : mid.length = 2 := by rw [hmidN hr']; rfl
+        refine ⟨2, Reach.cons (E.fetch hatMid) (pc' := pc + 2 + r1.ops.length + mid.length + r2.ops.length + preT.length) (stk' := stk) ?_ ?_⟩
+        · simp only [Op.mapT, step, haddrC]
+        · exact (Reach.one (E.fetch hatC) rfl).cast' (by omega)
+    · cases hc
+  · cases hc
+
+/-! ### loop -/
+
+def loopTail (F : Fr) (id : Nat) (rh : Option Nat) : List SymOp :=
+  match rh with
+  | some h' => emitDrop (dropRange F true h')
+  | none => [.label ⟨.cont, id⟩]
+
+theorem lowerI_loop (fs : List Fr) (h next : Nat) (bt : Option Ty) (body : List FI) :
+    (lowerI fs h next (.loop bt body)).ops =
+      [.br ⟨.header, next + 1⟩, .label ⟨.header, next + 1⟩] ++
+        (lowerS (⟨.loop, next + 1, h, arity bt⟩ :: fs) h (next + 1) body).ops ++
+        loopTail ⟨.loop, next + 1, h, arity bt⟩ (next + 1)
+          (lowerS (⟨.loop, next + 1, h, arity bt⟩ :: fs) h (next + 1) body).h := by
+  simp only [lowerI, loopTail]
+  cases (lowerS (⟨.loop, next + 1, h, arity bt⟩ :: fs) h (next + 1) body).h <;> rfl
+
+theorem execInstr_loop (m : Module) (n : Nat) (body : List Instr) (fr : Frame) (st : Store) :
+    execInstr m (n + 1) (.loop body) fr st =
+      match execSeq m n body fr st with
+      | (.br 0, fr', st') =>
+        execInstr m n (.loop body) { fr' with stack := fr'.stack.drop (fr'.stack.length - fr.stack.length) } st'
+      | (.br (k + 1), fr', st') => (.br k, fr', st')
+      | r => r := by
+  rw [execInstr]
+  rcases execSeq m n body fr st with ⟨ctl, fr', s'⟩
+  cases ctl with
+  | br l => cases l <;> rfl
+  | _ => rfl
+
+/-- the loop statement with the machine at the header label (position `pc + 1`) -/
+def PLoop (E : Env) (n : Nat) (bt : Option Ty) (body : List FI) : Prop :=
+  ∀ C fs base st vs locs next pc s0 h,
+    Inv E C fs base → endOK (btTypes bt) (checkS { C with labels := [] :: C.labels } [] body) = true →
+    ValsOK st vs → LocsOK E locs → h = E.lt.length + base.length + st.length →
+    At E.sym pc (lowerI fs h next (.loop bt body)).ops →
+    Sim E C fs base (some (btTypes bt ++ st)) (targetsI · (.loop bt body)) (n - weightI (.loop bt body))
+      (pc + 1, flat (vs ++ base) locs) (pc + (lowerI fs h next (.loop bt body)).ops.length)
+      (execInstr E.m n (.loop (toInstrs body)) ⟨vs ++ base, locs⟩ s0)
+
+theorem sim_loop_aux (E : Env) (bt : Option Ty) (body : List FI) :
+    ∀ n, (∀ m, m < n → PSeq E m) → PLoop E n bt body := by
+  intro n
+  induction n with
+  | zero =>
+    intro _ C fs base st vs locs next pc s0 h _ _ _ _ _ _
+    rw [execInstr_zero]
+    simp only [Sim, Nat.zero_sub]
+    exact RunsFor.zero
+  | succ n ihn =>
+    intro hS C fs base st vs locs next pc s0 h hinv hend hvs hlocs hh hat
+    have ihLoop := ihn (fun m hm => hS m (by omega))
+    have hSn := hS n (by omega)
+    rw [lowerI_loop] at hat ⊢
+    have hinv' := hinv.push ⟨.loop, next + 1, h, arity bt⟩ [] vs (by simp [brArity])
+      (by simp [hh, hvs.length]; omega)
+    have hh' : h = E.lt.length + (vs ++ base).length + ([] : List Ty).length := by simp [hh, hvs.length]; omega
+    cases hres : checkS { C with labels := [] :: C.labels } [] body with
+    | none => rw [hres] at hend; simp [endOK] at hend
+    | some res' =>
+    rw [hres] at hend
+    have hheight := lowerS_h (C := { C with labels := [] :: C.labels })
+      (⟨.loop, next + 1, h, arity bt⟩ :: fs) h body [] (next + 1) res' hres
+    simp only [List.length_nil, Nat.add_zero] at hheight
+    have hat0 : At E.sym pc [.br ⟨.header, next + 1⟩, .label ⟨.header, next + 1⟩] := hat.left.left
+    have hatB : At E.sym (pc + 2) (lowerS (⟨.loop, next + 1, h, arity bt⟩ :: fs) h (next + 1) body).ops :=
+      hat.left.right
+    have ih := hSn _ _ _ [] [] locs body (next + 1) (pc + 2) res' s0 h hinv' hres trivial hlocs hh' hatB
+    simp only [List.nil_append] at ih
+    generalize hr : lowerS (⟨.loop, next + 1, h, arity bt⟩ :: fs) h (next + 1) body = r at hat ih hheight hatB ⊢
+    have hlabel : Reach E.code 1 (pc + 1, flat (vs ++ base) locs) (pc + 2, flat (vs ++ base) locs) :=
+      Reach.one (E.fetch hat0.tail) rfl
+    have haddrH : resolveT E.sym ⟨.header, next + 1⟩ = pc + 1 := E.addr hat0.tail (by simp)
+    rw [execInstr_loop]
+    rcases hout : execSeq E.m n (toInstrs body) ⟨vs ++ base, locs⟩ s0 with ⟨ctl, fr', s'⟩
+    rw [hout] at ih
+    cases ctl with
+    | next =>
+      simp only [Sim] at ih ⊢
+      obtain ⟨st', vs', hr', hstack, hvs', hlocs', k, hk⟩ := ih
+      subst hr'
+      simp only [endOK, beq_iff_eq] at hend
+      subst hend
+      simp only [Option.map_some, btTypes_length] at hheight
+      have hnop : dropRange ⟨.loop, next + 1, h, arity bt⟩ true (h + arity bt) = none := dropRange_end_nop
+      refine ⟨_, vs' ++ vs, rfl, by rw [hstack, List.append_assoc], hvs'.append hvs, hlocs', 1 + k, ?_⟩
+      refine (hlabel.trans hk).cast' ?_
+      simp [hheight, loopTail, hnop, emitDrop]; omega
+    | br l =>
+      simp only [Sim] at ih
+      obtain ⟨F, ts, Y, hF, hts, hstack, ⟨rs, X, rfl, hrs⟩, hlocs', htg, k, hk⟩ := ih
+      cases l with
+      | zero =>
+        simp only [List.getElem?_cons_zero, Option.some.injEq] at hF hts
+        subst hF; subst hts
+        have hrs0 : rs = [] := hrs.nil_left
+        subst hrs0
+        have hlen : fr'.stack.length = X.length + (vs ++ base).length := by rw [hstack]; simp
+        have hkt := keepTop_flat (E := E) (S := fr'.stack) (locs := fr'.locals) (a := 0)
+          (b := (vs ++ base).length) hlocs' (by omega) (by omega)
+        have horig : h = E.lt.length + (vs ++ base).length := by simpa using hh'
+        simp only [Fr.label, brArity, if_true] at hk
+        rw [haddrH, horig, hkt] at hk
+        have hdrop : fr'.stack.drop (fr'.stack.length - (vs ++ base).length) = vs ++ base := by
+          rw [hlen, hstack, show X.length + (vs ++ base).length - (vs ++ base).length = ([] ++ X).length by simp]
+          simp
+        simp only [List.take_zero, List.nil_append, hdrop] at hk
+        simp only [hdrop]
+        have hrec := ihLoop C fs base st vs fr'.locals next pc s' h hinv (by rw [hres]; exact hend) hvs hlocs' hh
+          (by rw [lowerI_loop, hr]; exact hat)
+        rw [lowerI_loop, hr] at hrec
+        refine Sim.prepend' (hlabel.trans hk) ?_ hrec
+        simp [weightI]; omega
+      | succ l =>
+        simp only [List.getElem?_cons_succ] at hF hts
+        simp only [Sim]
+        refine ⟨F, ts, rs ++ X ++ vs, hF, hts, by rw [hstack]; simp, ⟨rs, X ++ vs, by simp, hrs⟩, hlocs', ?_, 1 + k, ?_⟩
+        · simpa [targetsI] using htg
+        · exact (hlabel.trans hk).cast (by omega)
+    | ret =>
+      simp only [Sim] at ih ⊢
+      obtain ⟨Y, hstack, ⟨rs, X, rfl, hrs⟩, hlocs', k, hk⟩ := ih
+      exact ⟨rs ++ X ++ vs, by rw [hstack]; simp, ⟨rs, X ++ vs, by simp, hrs⟩, hlocs', 1 + k,
+        (hlabel.trans hk).cast (by omega)⟩
+    | trap kd =>
+      simp only [Sim] at ih ⊢
+      exact TrapsAt.after hlabel ih
+    | exhausted =>
+      simp only [Sim] at ih ⊢
+      exact (RunsFor.after hlabel ih).mono (by simp [weightI])
+
+theorem sim_loop (E : Env) (n : Nat) (bt : Option Ty) (body : List FI) (hS : ∀ m, m < n → PSeq E m) :
+    PI E n (.loop bt body) := by
+  intro C fs base st vs locs next pc res s0 h hinv hc hvs hlocs hh hat
+  simp only [checkI] at hc
+  split at hc
+  · rename_i hend
+    cases hc
+    have hl := sim_loop_aux E bt body n hS C fs base st vs locs next pc s0 h hinv hend hvs hlocs hh hat
+    have hat' := hat
+    rw [lowerI_loop] at hat'
+    have hat0 : At E.sym pc [.br ⟨.header, next + 1⟩, .label ⟨.header, next + 1⟩] := hat'.left.left
+    have haddrH : resolveT E.sym ⟨.header, next + 1⟩ = pc + 1 := E.addr hat0.tail (by simp)
+    have hbr : Reach E.code 1 (pc, flat (vs ++ base) locs) (pc + 1, flat (vs ++ base) locs) := by
+      refine Reach.one (E.fetch hat0) ?_
+      simp only [Op.mapT, step, haddrH]
+    exact Sim.prepend hbr hl
+  · cases hc
+
+/-! ### sequences -/
+
+theorem checkI_not_terminator {C : Ctx} {st st' : List Ty} {i : FI} (h : checkI C st i = some (some st')) :
+    i.terminator = false := by
+  cases i with
+  | unreachable => simp only [checkI] at h; cases h
+  | ret =>
+    simp only [checkI] at h
+    split at h <;> cases h
+  | br l =>
+    simp only [checkI] at h
+    split at h
+    · split at h <;> cases h
+    · cases h
+  | brTable ls d =>
+    simp only [checkI] at h
+    split at h
+    · split at h <;> cases h
+    · cases h
+  | _ => rfl
+
+/-- an outcome that is not `next` does not depend on what follows -/
+theorem Sim.weaken {E : Env} {C fs base res res' tg tg' budget budget' S0 pcEnd pcEnd'}
+    {out : Ctl × Frame × Store} (hne : out.1 ≠ .next) (htg : ∀ l, tg l = true → tg' l = true)
+    (hb : budget' ≤ budget) (h : Sim E C fs base res tg budget S0 pcEnd out) :
+    Sim E C fs base res' tg' budget' S0 pcEnd' out := by
+  rcases out with ⟨ctl, fr', s'⟩
+  cases ctl with
+  | next => exact absurd rfl hne
+  | br l =>
+    simp only [Sim] at h ⊢
+    obtain ⟨F, ts, Y, h1, h2, h3, h4, h5, h6, k, hk⟩ := h
+    exact ⟨F, ts, Y, h1, h2, h3, h4, h5, htg l h6, k, hk⟩
+  | ret => exact h
+  | trap kd => exact h
+  | exhausted => simp only [Sim] at h ⊢; exact h.mono hb
+
+theorem execSeq_zero {m is fr st} : execSeq m 0 is fr st = (.exhausted, fr, st) := by
+  unfold execSeq; rfl
+
+theorem sim_seq (E : Env) (n : Nat) (hI : ∀ i, PI E n i) (hS : PSeq E n) : PSeq E (n + 1) := by
+  intro C fs base st vs locs is next pc res s0 h hinv hc hvs hlocs hh hat
+  cases is with
+  | nil =>
+    simp only [checkS] at hc
+    cases hc
+    simp only [toInstrs, execSeq, lowerS, Sim]
+    exact ⟨st, vs, rfl, rfl, hvs, hlocs, 0, Reach.refl _⟩
+  | cons i rest =>
+    simp only [checkS] at hc
+    cases hci : checkI C st i with
+    | none => rw [hci] at hc; cases hc
+    | some resI =>
+    have hhI := lowerI_h (C := C) (st := st) (i := i) fs (E.lt.length + base.length) next hci
+    rw [← hh] at hhI
+    simp only [lowerS] at hat ⊢
+    have hatI : At E.sym pc (lowerI fs h next i).ops := by
+      cases resI with
+      | none => simp only [Option.map_none] at hhI; simpa [hhI] using hat
+      | some st1 => simp only [Option.map_some] at hhI; rw [hhI] at hat; exact hat.left
+    have ihI := hI i C fs base st vs locs next pc resI s0 h hinv hci hvs hlocs hh hatI
+    simp only [toInstrs, execSeq]
+    rcases hout : execInstr E.m n i.toInstr ⟨vs ++ base, locs⟩ s0 with ⟨ctl, fr', s'⟩
+    rw [hout] at ihI
+    by_cases hnext : ctl = .next
+    · subst hnext
+      simp only [Sim] at ihI
+      obtain ⟨st1, vs1, hr1, hstack, hvs1, hlocs1, k, hk⟩ := ihI
+      subst hr1
+      rw [hci] at hc
+      simp only at hc
+      simp only [Option.map_some] at hhI
+      rw [hhI] at hat ⊢
+      simp only at hat ⊢
+      have hfr : fr' = ⟨vs1 ++ base, fr'.locals⟩ := by cases fr'; simp_all
+      rw [hfr]
+      have ihS := hS C fs base st1 vs1 fr'.locals rest (lowerI fs h next i).next (pc + (lowerI fs h next i).ops.length)
+        res s' (E.lt.length + base.length + st1.length) hinv hc hvs1 hlocs1 rfl hat.right
+      have hk' : Reach E.code k (pc, flat (vs ++ base) locs)
+          (pc + (lowerI fs h next i).ops.length, flat (vs1 ++ base) fr'.locals) := by rw [hstack] at hk; exact hk
+      have hnt := checkI_not_terminator hci
+      have inner : Sim E C fs base res (targetsS · (i :: rest)) (n - weightS rest)
+          (pc + (lowerI fs h next i).ops.length, flat (vs1 ++ base) fr'.locals)
+          (pc + ((lowerI fs h next i).ops ++
+            (lowerS fs (E.lt.length + base.length + st1.length) (lowerI fs h next i).next rest).ops).length)
+          (execSeq E.m n (toInstrs rest) ⟨vs1 ++ base, fr'.locals⟩ s') := by
+        rcases hout2 : execSeq E.m n (toInstrs rest) ⟨vs1 ++ base, fr'.locals⟩ s' with ⟨ctl2, fr2, s2⟩
+        rw [hout2] at ihS
+        cases ctl2 with
+        | next =>
+          simp only [Sim] at ihS ⊢
+          obtain ⟨st2, vs2, h1, h2, h3, h4, k2, hk2⟩ := ihS
+          exact ⟨st2, vs2, h1, h2, h3, h4, k2, hk2.cast' (by simp; omega)⟩
+        | br l => exact Sim.weaken (by simp) (fun l hl => by simp [targetsS, hnt, hl]) (Nat.le_refl _) ihS
+        | ret => exact Sim.weaken (by simp) (fun l hl => by simp [targetsS, hnt, hl]) (Nat.le_refl _) ihS
+        | trap kd => exact Sim.weaken (by simp) (fun l hl => by simp [targetsS, hnt, hl]) (Nat.le_refl _) ihS
+        | exhausted => exact Sim.weaken (by simp) (fun l hl => by simp [targetsS, hnt, hl]) (Nat.le_refl _) ihS
+      exact Sim.prepend' hk' (by simp [weightS]; omega) inner
+    · have hw : ∀ out : Ctl × Frame × Store, out = (ctl, fr', s') →
+          Sim E C fs base res (targetsS · (i :: rest)) (n + 1 - weightS (i :: rest)) (pc, flat (vs ++ base) locs)
+            (pc + (lowerS fs h next (i :: rest)).ops.length) out := by
+        intro out ho
+        subst ho
+        exact Sim.weaken hnext (fun l hl => by simp [targetsS, hl]) (by simp [weightS]; omega) ihI
+      simp only [lowerS] at hw
+      cases ctl with
+      | next => exact absurd rfl hnext
+      | br l => exact hw _ rfl
+      | ret => exact hw _ rfl
+      | trap kd => exact hw _ rfl
+      | exhausted => exact hw _ rfl
+
+/-! ### the induction on the fuel -/
+
+theorem PI_zero (E : Env) (i : FI) : PI E 0 i := by
+  intro C fs base st vs locs next pc res s0 h _ _ _ _ _ _
+  rw [execInstr_zero]
+  simp only [Sim, Nat.zero_sub]
+  exact RunsFor.zero
+
+theorem PSeq_zero (E : Env) : PSeq E 0 := by
+  intro C fs base st vs locs is next pc res s0 h _ _ _ _ _ _
+  rw [execSeq_zero]
+  simp only [Sim, Nat.zero_sub]
+  exact RunsFor.zero
+
+theorem sim_ite_one (E : Env) (bt : Option Ty) (th el : List FI) : PI E 1 (.ite bt th el) := by
+  intro C fs base st vs locs next pc res s0 h hinv hc hvs hlocs hh hat
+  simp only [checkI] at hc
+  split at hc
+  · rename_i c s
+    obtain ⟨vc, vs', rfl, hvc, hvs'⟩ := hvs.cons_left
+    simp only [FI.toInstr, List.cons_append, execInstr_ite, execInstr_zero, Sim]
+    exact RunsFor.zero.mono (by simp [weightI])
+  · cases hc
+
+theorem sim_instr (E : Env) (n : Nat) (hS : ∀ m, m < n → PSeq E m) : ∀ i, PI E n i := by
+  intro i
+  cases n with
+  | zero => exact PI_zero E i
+  | succ n =>
+    cases i with
+    | const t v => exact sim_const E _ t v
+    | num1 name => exact sim_num1 E _ name
+    | num2 name => exact sim_num2 E _ name
+    | localGet i => exact sim_localGet E _ i
+    | localSet i => exact sim_localSet E _ i
+    | localTee i => exact sim_localTee E _ i
+    | drop => exact sim_drop E _
+    | select => exact sim_select E _
+    | unreachable => exact sim_unreachable E _
+    | ret => exact sim_ret E _
+    | br l => exact sim_br E _ l
+    | brIf l => exact sim_brIf E _ l
+    | brTable ls d => exact sim_brTable E _ ls d
+    | block bt body => exact sim_block E n bt body (hS n (by omega))
+    | loop bt body => exact sim_loop E (n + 1) bt body hS
+    | ite bt th el =>
+      cases n with
+      | zero => exact sim_ite_one E bt th el
+      | succ n => exact sim_ite E n bt th el (hS n (by omega))
+
+theorem sim_all (E : Env) : ∀ n, PSeq E n := by
+  intro n
+  induction n using Nat.strongRecOn with
+  | _ n ih =>
+    cases n with
+    | zero => exact PSeq_zero E
+    | succ n => exact sim_seq E n (sim_instr E n (fun m hm => ih m (by omega))) (ih n (by omega))
+
 end Wz.Proofs.FlatLower
